@@ -223,6 +223,15 @@ def judge(line, obs, orc):
         acc = b"".join(W.msg([pattern(i, n)]) for i, (n, r) in enumerate(zip(lens, res)) if r == "ok")
         if int(kv["written"]) + int(kv["buffered"]) != len(acc) or int(kv["sum"], 16) != fnv(acc):
             return "written ++ buffered is not the concatenation of the accepted whole messages"
+        # a message may be refused for lack of room only once the buffer has reached the high-water mark: what is buffered is
+        # at most what was accepted before, so a BufferFull below that total is a drop that the property does not allow
+        acc_before = 0
+        for i, (n, r) in enumerate(zip(lens, res)):
+            if r == "err:BufferFull" and acc_before < HWM:
+                return ("message %d was dropped as 'buffer full' although at most %d octets had been accepted for this connection "
+                        "(high-water mark %d)" % (i, acc_before, HWM))
+            if r == "ok":
+                acc_before += len(W.msg([pattern(i, n)]))
         maxenc = max([len(W.msg([pattern(0, n)])) for n in lens] + [0])
         if int(kv["buffered"]) >= HWM + maxenc:
             return "buffer holds %s bytes: above high-water mark + one message" % kv["buffered"]
